@@ -80,6 +80,7 @@ LitValue(v) ==
       [] v = "''" -> VS("") [] v = "'x'" -> VS("x") [] v = "'y'" -> VS("y") [] v = "'1'" -> VS("1")
       [] v = "'a'" -> VS("a") [] v = "'b'" -> VS("b") [] v = "'t1'" -> VS("t1") [] v = "'t2'" -> VS("t2")
       [] v = "'t'" -> VS("t") [] v = "'k'" -> VS("k") [] v = "'p'" -> VS("p") [] v = "'q'" -> VS("q")
+      [] Len(v) >= 2 /\ SubSeq(v, 1, 1) = "'" -> VS(SubSeq(v, 2, Len(v) - 1))     \* escape-free string literal
       [] OTHER -> VApp("lit", <<VS(v)>>)
 
 (* operators the specification decides itself (control flow); everything else is deferred *)
@@ -133,6 +134,42 @@ EvalFields(fs, i, env, acc) ==
                                 EvalFields(fs, i + 1, env, IF v.k = "obj" THEN PutAll(acc, v.kv, 1) ELSE acc)
            [] f.t = "short"  -> EvalFields(fs, i + 1, env, PutKV(acc, f.n, Resolve(f.n, env)))
            [] OTHER          -> EvalFields(fs, i + 1, env, PutKV(acc, f.n, Eval(f.e, env)))
+
+
+-----------------------------------------------------------------------------
+(* L-value paths (C11).  The path of an access chain names the location the expression reads:
+   [ok |-> TRUE, root |-> "data", keys]                      a data path
+   [ok |-> TRUE, root |-> "script", abs |-> path, keys]      a member of an external script module
+   [ok |-> TRUE, root |-> "inline", path, mod, keys]         a member of an inline script module
+   NoLP for anything that is not a pure access chain (arithmetic, literals, calls, loop indices, items
+   of lists that have no path); a conditional yields the path of the branch actually taken. *)
+NoLP == [ok |-> FALSE]
+DataLP(keys) == [ok |-> TRUE, root |-> "data", keys |-> keys]
+ExtendLP(p, key) == IF p.ok THEN [p EXCEPT !.keys = Append(@, key)] ELSE NoLP
+
+RECURSIVE LPath(_, _)
+LPath(e, env) ==
+    CASE e.k = "id"   -> LET i == FindScope(env.scopes, e.n, Len(env.scopes))
+                         IN IF i = 0 THEN DataLP(<<VS(e.n)>>) ELSE env.scopes[i].lp
+      [] e.k = "mem"  -> ExtendLP(LPath(e.e, env), VS(e.n))
+      [] e.k = "idx"  -> ExtendLP(LPath(e.e, env), Eval(e.i, env))
+      [] e.k = "cond" -> IF Truthy(Eval(e.c, env)) THEN LPath(e.a, env) ELSE LPath(e.b, env)
+      [] OTHER        -> NoLP
+
+ValueLP(v, env) == IF v.t = "e" THEN LPath(v.e, env) ELSE NoLP
+
+(* get-put: writing w at a data path and reading the expression again yields w *)
+RECURSIVE SetAt(_, _, _, _)
+KeyStr(kv) == CASE kv.k = "str" -> kv.s [] kv.k = "int" /\ kv.i >= 0 -> NatStr(kv.i) [] OTHER -> "?"
+SetAt(v, keys, i, w) ==
+    IF i > Len(keys) THEN w
+    ELSE LET key == keys[i] IN
+         CASE v.k = "obj" -> LET j == FindKey(v.kv, KeyStr(key), Len(v.kv)) IN
+                             IF j = 0 THEN VO(Append(v.kv, <<KeyStr(key), SetAt(VU, keys, i + 1, w)>>))
+                             ELSE VO([v.kv EXCEPT ![j] = <<KeyStr(key), SetAt(v.kv[j][2], keys, i + 1, w)>>])
+           [] v.k = "arr" /\ key.k = "int" /\ key.i >= 0 /\ key.i < Len(v.xs) ->
+                             VA([v.xs EXCEPT ![key.i + 1] = SetAt(v.xs[key.i + 1], keys, i + 1, w)])
+           [] OTHER -> v                        \* nothing to write into: the path does not exist in D
 
 -----------------------------------------------------------------------------
 (* Template syntax (abstract).
@@ -204,8 +241,15 @@ EventFlags(f) == CASE f = "bind" -> "000" [] f = "mut-bind" -> "010" [] f = "cat
                    [] f = "capture-bind" -> "001" [] f = "capture-mut-bind" -> "011" [] f = "capture-catch" -> "101"
 EventFams == {"bind", "mut-bind", "catch", "capture-bind", "capture-mut-bind", "capture-catch"}
 
-(* one attribute -> zero or one channel entries (slot is handled by the element itself) *)
-RenderAttr(a, env, isSlotEl) ==
+(* one attribute -> zero or one channel entries (slot is handled by the element itself); in "marks" mode
+   (C11) each entry also carries the l-value path of its expression, model = the attribute is model: *)
+WithLP(entries, a, env) ==
+    IF env.marks /\ entries # <<>>
+    THEN <<[x \in {"lp", "model"} \cup DOMAIN entries[1] |->
+              IF x = "lp" THEN ValueLP(a.v, env) ELSE IF x = "model" THEN a.f = "model:" ELSE entries[1][x]]>>
+    ELSE entries
+
+RenderAttr0(a, env, isSlotEl) ==
     CASE a.f = "plain"  -> <<[ch |-> IF isSlotEl THEN "l" ELSE "r", n |-> IF isSlotEl THEN Camel(a.n) ELSE a.n,
                               v |-> RenderValue(a.v, env, IF isSlotEl THEN VS("") ELSE VB(TRUE))]>>
       [] a.f = "class"  -> <<[ch |-> "c", n |-> "", v |-> RenderValue(a.v, env, VS(""))]>>
@@ -224,6 +268,8 @@ RenderAttr(a, env, isSlotEl) ==
       [] a.f = "extra-attr:" -> <<[ch |-> "a", n |-> a.n, v |-> RenderValue(a.v, env, VS(""))]>>
       [] OTHER -> <<>>          \* slot, slot:x handled elsewhere
 
+RenderAttr(a, env, isSlotEl) == WithLP(RenderAttr0(a, env, isSlotEl), a, env)
+
 RenderAttrs(at, i, env, isSlotEl, acc) ==
     IF i > Len(at) THEN acc ELSE RenderAttrs(at, i + 1, env, isSlotEl, acc \o RenderAttr(at[i], env, isSlotEl))
 
@@ -240,7 +286,7 @@ SlotScopes(at, i, sv, acc) ==
     ELSE IF at[i].f = "slot:"
          THEN SlotScopes(at, i + 1, sv,
                 Append(acc, [n |-> IF at[i].v.t = "s" /\ at[i].v.s # "" THEN at[i].v.s ELSE Camel(at[i].n),
-                             v |-> GetS(sv, Camel(at[i].n)), lp |-> <<>>]))
+                             v |-> GetS(sv, Camel(at[i].n)), lp |-> NoLP]))
          ELSE SlotScopes(at, i + 1, sv, acc)
 
 (* a rendered value as a value: mixed text is the (deferred) concatenation of its pieces *)
@@ -272,8 +318,9 @@ Items(v) == CASE v.k = "arr" -> [i \in 1..Len(v.xs) |-> <<IF v.xs[i].k = "hole" 
 
 RenderFor(n, its, i, env, g, acc) ==
     IF i > Len(its) THEN acc
-    ELSE LET env2 == [env EXCEPT !.scopes = @ \o <<[n |-> n.item, v |-> its[i][1], lp |-> <<>>],
-                                                     [n |-> n.index, v |-> its[i][2], lp |-> <<>>]>>]
+    ELSE LET llp  == ValueLP(n.list, env)          \* the list is evaluated outside the scopes it introduces
+             env2 == [env EXCEPT !.scopes = @ \o <<[n |-> n.item, v |-> its[i][1], lp |-> ExtendLP(llp, its[i][2])],
+                                                     [n |-> n.index, v |-> its[i][2], lp |-> NoLP]>>]
          IN RenderFor(n, its, i + 1, env, g, acc \o RenderSeq(n.ch, env2, g))
 
 (* g: the group context [files : path -> file, cur : path] for template-is / include *)
@@ -296,7 +343,11 @@ LookupTmpl(g, name, k) ==
                    ELSE LookupTmpl(g, name, k - 1)
          ELSE [found |-> FALSE]
 
-WxsScopes(file) == [i \in 1..Len(file.wxs) |-> [n |-> file.wxs[i].n, v |-> VO(file.wxs[i].members), lp |-> <<>>]]
+WxsScopes(file) == [i \in 1..Len(file.wxs) |->
+    [n |-> file.wxs[i].n, v |-> VO(file.wxs[i].members),
+     lp |-> IF "src" \in DOMAIN file.wxs[i]
+            THEN [ok |-> TRUE, root |-> "script", abs |-> file.wxs[i].src, keys |-> <<>>]
+            ELSE [ok |-> TRUE, root |-> "inline", path |-> file.path, mod |-> file.wxs[i].n, keys |-> <<>>]]]
 
 (* `env.sm` ("slot mode"): the nodes being rendered are slot content of a dynamic-slot component,
    whose only slot is the unnamed one.  Content addressed to another slot is not materialised; an
@@ -330,7 +381,8 @@ RenderNode(n, env, g) ==
                ELSE IF n.hasElse THEN RenderSeq(n.els, e0, g) ELSE <<>>
       [] n.t = "for" ->
             LET lv == IF n.list.t = "e" THEN Eval(n.list.e, env) ELSE IF n.list.t = "s" THEN VS(n.list.s) ELSE VS("")
-            IN RenderFor(n, Items(lv), 1, [env EXCEPT !.sv = VO(<<>>)], g, <<>>)
+            IN (IF env.marks THEN << [t |-> "formark", lp |-> ValueLP(n.list, env)] >> ELSE <<>>)
+               \o RenderFor(n, Items(lv), 1, [env EXCEPT !.sv = VO(<<>>)], g, <<>>)
       [] n.t = "block" -> RenderSeq(n.ch, env, g)
       [] n.t = "blockslot" ->
             LET sl == RenderValue(n.slot, env, VS(""))
@@ -344,12 +396,12 @@ RenderNode(n, env, g) ==
                     IN IF ~r.found THEN <<>>
                        ELSE LET d == IF n.data.t = "e" THEN Eval(n.data.e, env) ELSE VO(<<>>)
                             IN RenderSeq(r.ch, [data |-> IF d.k = "obj" THEN d ELSE VO(<<>>),
-                                                scopes |-> WxsScopes(g.files[r.file]), sv |-> VO(<<>>), sm |-> env.sm],
+                                                scopes |-> WxsScopes(g.files[r.file]), sv |-> VO(<<>>), sm |-> env.sm, marks |-> env.marks],
                                          [g EXCEPT !.cur = r.file])
       [] n.t = "include" ->
             IF n.path \in DOMAIN g.files
             THEN RenderSeq(g.files[n.path].root,
-                           [data |-> env.data, scopes |-> WxsScopes(g.files[n.path]), sv |-> VO(<<>>), sm |-> env.sm],
+                           [data |-> env.data, scopes |-> WxsScopes(g.files[n.path]), sv |-> VO(<<>>), sm |-> env.sm, marks |-> env.marks],
                            [g EXCEPT !.cur = n.path])
             ELSE <<>>
       [] n.t = "slot" ->
@@ -361,7 +413,8 @@ RenderSeq(ns, env, g) ==
 
 (* env0: rendering the root of file `p` of group `files` with data `dat`; `sv`: the slot values supplied
    by an enclosing dynamic-slot component (none at the root) *)
-Env0(files, p, dat) == [data |-> dat, scopes |-> WxsScopes(files[p]), sv |-> VO(<<>>), sm |-> FALSE]
+Env0(files, p, dat) == [data |-> dat, scopes |-> WxsScopes(files[p]), sv |-> VO(<<>>), sm |-> FALSE, marks |-> FALSE]
+RenderFileMarked(files, p, dat) == RenderSeq(files[p].root, [Env0(files, p, dat) EXCEPT !.marks = TRUE], [files |-> files, cur |-> p])
 RenderFile(files, p, dat) == RenderSeq(files[p].root, Env0(files, p, dat), [files |-> files, cur |-> p])
 
 SingleFile(root) == [path |-> "a", imports |-> <<>>, wxs |-> <<>>, defs |-> <<>>, root |-> root]
